@@ -158,8 +158,11 @@ def check(ctx: Ctx) -> None:
         fi_hv = prog.func(f"{PK}::RawPacketData.header_values")
         rets = returns(fi_hv)
         names = None
-        if len(rets) == 1 and isinstance(rets[0].value, ast.Tuple):
-            names = [(dotted(e) or "?").replace("self.", "") for e in rets[0].value.elts]
+        rv = resolve_local(fi_hv, rets[0].value) if len(rets) == 1 and rets[0].value is not None else None
+        if isinstance(rv, ast.Call) and rv.args and not rv.keywords and len(rv.args) == 7:
+            rv = ast.Tuple(elts=list(rv.args), ctx=ast.Load())        # NamedTuple(...) / tuple-like factory of the seven fields
+        if isinstance(rv, ast.Tuple):
+            names = [(dotted(e) or "?").replace("self.", "") for e in rv.elts]
         ctx.decide(None if names is None else names == ORDER, "R13.header-values",
                    f"{PK}::RawPacketData.header_values", "seven fields in layout order",
                    f"header_values lists {names}, layout order is {ORDER}")
@@ -453,7 +456,7 @@ SPEC = PropSpec(
     floors={"R13.accessor": 6, "R13.pack": 6, "R13.range": 7, "R13.reject-type": 7, "R13.length-term": 1,
             "R13.framer-length": 1, "R13.to-bytes": 1, "R13.concat": 1, "R13.w": 1, "R13.f": 10},
     fallback={r: ("R13.w",) for r in ("R13.pack", "R13.range", "R13.concat", "R13.length-term", "R13.to-bytes",
-                                      "R13.reject-type", "R13.reject-dominates", "R13.framer-length")},
+                                      "R13.reject-type", "R13.reject-dominates", "R13.framer-length", "R13.header-values")},
     explanation=("Table agreement by constant folding: the 48-bit OR-tree of create_ccsds_packet (field -> shift), "
                  "its rejecting range checks (field -> accepted closed range), the RawPacketData accessor windows "
                  "(field -> start,width), data_length, header_values and the framer's length read are extracted from "
